@@ -144,6 +144,47 @@ def branch(blk, along):
         cur = f["inner"][-1]
 
 
+def sizes():
+    """table size handed to SourceMap by the KickMap constructor, size of `_offset`, and SourceMap's allocation"""
+    ctors = [d for d in ast_of(SRC, "KickMap::KickMap") if d.get("kind") == "CXXConstructorDecl"
+             and any(c.get("kind") == "CompoundStmt" for c in d.get("inner", []))]
+    if len(ctors) != 1:
+        raise Unsupported("KickMap constructor")
+    base = [i for i in ctors[0]["inner"] if i.get("kind") == "CXXCtorInitializer" and "SourceMap" in str((i.get("baseInit") or {}))]
+    if len(base) != 1:
+        raise Unsupported("SourceMap base initialiser")
+    ce = find(base[0], lambda m: m.get("kind") == "CXXConstructExpr", [])[0]
+    mem = unwrap(ce["inner"][4])
+    if mem["kind"] != "ConditionalOperator" or "kd" not in refs(mem["inner"][0]) or "x" not in refs(mem["inner"][0]):
+        raise Unsupported("memsize argument is not kd==Axis::x ? … : …")
+
+    class N2(Nat):
+        def tr(self, node):
+            n0 = unwrap(node)
+            if n0["kind"] == "DeclRefExpr" and n0["referencedDecl"]["name"] in ("nx", "ny", "nb", "it"):
+                return n0["referencedDecl"]["name"]
+            return Nat.tr(self, node)
+    t = N2({})
+    mem_x, mem_y = t.tr(mem["inner"][1]), t.tr(mem["inner"][2])
+    rs = [c for c in find(ctors[0], lambda m: m.get("kind") == "CXXMemberCallExpr", [])
+          if "resize" in members(c["inner"][0]) and "_offset" in members(c["inner"][0])]
+    if len(rs) != 1:
+        raise Unsupported("_offset.resize")
+    off = t.tr(rs[0]["inner"][1])
+    # SourceMap: _hinfo(new hi[std::max(memsize, 16)])
+    sm = [d for d in ast_of("src/SM/SourceMap.cpp", "SourceMap::SourceMap") if d.get("kind") == "CXXConstructorDecl"]
+    alloc = None
+    for d in sm:
+        for i in [x for x in d.get("inner", []) if x.get("kind") == "CXXCtorInitializer" and (x.get("anyInit") or {}).get("name") == "_hinfo"]:
+            mx = [c for c in find(i, lambda m: m.get("kind") == "CallExpr", []) if refs(c["inner"][0])[:1] == ["max"]]
+            lits = [l["value"] for l in find(i, lambda m: m.get("kind") == "IntegerLiteral", [])]
+            if mx and "memsize" in refs(mx[0]) and len(lits) == 1:
+                alloc = int(lits[0])
+    if alloc is None:
+        raise Unsupported("SourceMap allocation is not new hi[max(memsize, c)]")
+    return mem_x, mem_y, off, alloc
+
+
 def generate():
     docs = [d for d in ast_of(SRC, "KickMap::apply") if d.get("kind") == "CXXMethodDecl" and d.get("name") == "apply"
             and any(c.get("kind") == "CompoundStmt" for c in d.get("inner", []))]
@@ -172,6 +213,13 @@ def generate():
                 "def kick%sGuard (kd pd : Nat) : Nat := %s" % (tag, br["guard"]),
                 "def kick%sRead (b kd pd x y s : Nat) : Nat := %s" % (tag, br["read"]),
                 "def kick%sWrite (b kd pd x y : Nat) : Nat := %s\n" % (tag, br["write"])]
+    mem_x, mem_y, off, alloc = sizes()
+    out += ["/-- number of table entries the KickMap constructor asks SourceMap for (kick along x / along y), the number SourceMap\n"
+            "    allocates for a request, and the size of `_offset` -/",
+            "def kickMemsizeX (nx ny nb it : Nat) : Nat := %s" % mem_x,
+            "def kickMemsizeY (nx ny nb it : Nat) : Nat := %s" % mem_y,
+            "def kickAlloc (memsize : Nat) : Nat := max memsize %d" % alloc,
+            "def kickOffsetSize (pd nb : Nat) : Nat := %s\n" % off]
     out.append("end Inovesa.Gen")
     return "\n".join(out) + "\n"
 
